@@ -108,10 +108,18 @@ def h_fault(params):
             nsel = len(h.model.pts) if params.get("all") else len(h.model.matches(qd, params.get("via")))
             if nsel <= i:
                 raise lpe.Infeasible()
+            kw = {slot: cb}
+            if params.get("extra"):
+                # a static argument for an attribute that is applied BEFORE the failing callable's one (the updater
+                # writes time, measurement, tags, fields in that order): the point on which the callable fails has
+                # already been edited when it fails
+                from ..symtime import mk_time as _mk
+
+                kw.update({"measurement": {"time": _mk(2_000_000_000_000_000)}, "tags": {"measurement": "moved"}, "fields": {"tags": {"j": "static"}}}[slot])
             if params.get("all"):
-                _expect_raise(lambda: db.update_all(**{slot: cb}), f"update_all({slot}=callable that fails on call {i})")
+                _expect_raise(lambda: db.update_all(**kw), f"update_all({slot}=callable that fails on call {i}{', with an earlier static argument' if params.get('extra') else ''})")
             else:
-                _expect_raise(lambda: db.update(q, **{slot: cb}), f"update({slot}=callable that fails on call {i})")
+                _expect_raise(lambda: db.update(q, **kw), f"update({slot}=callable that fails on call {i}{', with an earlier static argument' if params.get('extra') else ''})")
         elif kind == "reinsert":
             # insert(point, measurement=<invalid>) must raise and must not have touched the caller's point:
             # inserting the very same object afterwards behaves like a first insert
@@ -220,6 +228,10 @@ def obligations(tier):
                 for q in (B, A2) if th else (B,):
                     obs.append(_ob(f"callable/{slot}/{bad}/{q_repr(q)}/{cname}", kind="callable", slot=slot, bad=bad, q=q, ai=ai, reindex_before=rx, n=3 if (th or cname != "scan") else 2, next="ins", torder="sym" if th else "ooo"))
                 obs.append(_ob(f"callable-update_all/{slot}/{bad}/{cname}", kind="callable", slot=slot, bad=bad, q=B, all=True, ai=ai, reindex_before=rx, n=2, next="rm", torder="ooo"))
+                if slot != "time":
+                    obs.append(_ob(f"callable+static/{slot}/{bad}/{cname}", kind="callable", slot=slot, bad=bad, q=B, all=True, extra=True, ai=ai, reindex_before=rx, n=2, next="rm", torder="ooo"))
+                    if bad == "raise":
+                        obs.append(_ob(f"callable+static/{slot}/{bad}/query/{cname}", kind="callable", slot=slot, bad=bad, q=B, extra=True, ai=ai, reindex_before=rx, n=3 if cname != "scan" else 2, next="ins", torder="ooo"))
         for how in ("insert", "insert_multiple"):
             obs.append(_ob(f"reinsert-after-failed-insert/{how}/{cname}", kind="reinsert", how=how, ai=ai, reindex_before=rx, n=2, next="rm", torder="sym"))
         for which in STATIC:
